@@ -2,6 +2,7 @@
 * Copyright (C) 2018-2025 by Pavel Kisliak                                     *
 * This file is part of BitSerializer library, licensed under the MIT license.  *
 *******************************************************************************/
+#include <algorithm>
 #include "msgpack_readers.h"
 #include "bitserializer/conversion_detail/memory_utils.h"
 
@@ -1251,7 +1252,8 @@ namespace BitSerializer::MsgPack::Detail
 			}
 
 			mBuffer.clear();
-			mBuffer.reserve(remainingSize);
+			// The declared size comes from the (untrusted) input, do not reserve more than a reasonable amount ahead of reading
+			mBuffer.reserve(std::min<size_t>(remainingSize, 65536));
 			while (remainingSize != 0)
 			{
 				if (const std::string_view chunk = mBinaryStreamReader.ReadByChunks(remainingSize); !chunk.empty())
